@@ -376,6 +376,25 @@ def v7(ctx, rid):
         raise core.AnchorLost('data read of the sequential scan: %d' % n)
 
 
+FLAG = 'validate_data_during_index_regen'
+
+
+def _flag_only(prog, f, operand):
+    """the bool operand is, through parameters and upvars of every caller, the configured flag and nothing else"""
+    ogs = core.origins_ip(prog, f, operand, depth=3, stop_fields=True)
+    if not ogs:
+        return False, 'nothing'
+    for o in ogs:
+        if o.kind == 'field' and o.data[1] == FLAG:
+            continue
+        if o.kind == 'call' and o.data.name == FLAG:
+            continue
+        if o.kind == 'arg':
+            continue    # an untraceable entry parameter (builder / setter): checked by V9
+        return False, ('%s %s' % (o.kind, o.data.name if o.kind == 'call' else str(o.data)[:40]))
+    return True, None
+
+
 def v8(ctx, rid):
     """"quarantined at start-up when data validation is enabled": the flag that switches the data-checksum audit of the
     regeneration scan on is the configured flag and nothing else - every call that hands a validation flag to the scan
@@ -397,6 +416,12 @@ def v8(ctx, rid):
                 fields = {v for k, v in lv if k == 'field'}
                 args_ = {v for k, v in lv if k in ('arg', 'upvar')}
                 other = {(k, v) for k, v in lv if k not in ('field', 'arg', 'upvar')}
+                if args_ and not fields and not other:
+                    # a parameter carries the flag: what do the callers hand over (a constant `false` for one of them switches the
+                    # audit off for that path)
+                    okf, why = _flag_only(prog, f, a)
+                    if not okf:
+                        other = {('caller', str(why))}
                 if (fields == {'validate_data_during_index_regen'} and not other and not args_) or (not fields and not other and args_):
                     ctx.ok(rid, key, c.where(), 'the flag is the configured validate_data_during_index_regen (or a parameter carrying it)')
                 else:
@@ -443,6 +468,22 @@ def option_reaches_config(ctx, rid, field, builder_method):
                 ctx.ok(rid, key, f.where(bb), 'value comes from the parameter / the same field of another config value')
             else:
                 ctx.bad(rid, key, f.where(bb), 'a config value is built / overwritten in `%s` with `%s` taken from %s: a previously configured value is silently replaced' % (root.id.split('::')[-1], field, [repr(x)[:60] for x in ogs if x not in good][:2] or 'nothing'))
+    # (c) every value handed to a constructor parameter that becomes the field is the configured flag and nothing else
+    if field == FLAG:
+        for f in prog.fns.values():
+            for c in f.calls:
+                if c.bb not in f.reachable() or c.name == 'poll' or not any(t.endswith('BlobConfig::new') for t in prog.resolve(c) if t in prog.fns):
+                    continue
+                for a in c.args:
+                    l = op_local(a)
+                    if (l is not None and f.locals[l]['s'] == 'bool') or (core.op_const(a) or {}).get('ty') == 'bool':
+                        n += 1
+                        key = 'constructor-gets-the-flag|%s' % prog.fns[f.id].root
+                        okf, why = _flag_only(prog, f, a)
+                        if okf:
+                            ctx.ok(rid, key, c.where(), 'the blob config is built with the configured flag')
+                        else:
+                            ctx.bad(rid, key, c.where(), 'a blob config is built with a validation flag that depends on `%s` besides the configured value: for some blobs the data audit of the start-up scan is switched off although it was requested' % why)
     if n < 3:
         raise core.AnchorLost('configuration plumbing of %s: %d' % (field, n))
 
